@@ -21,6 +21,7 @@ P_ORDER = 2
 TIMES = (0.37, 0.61, 0.93)
 ITS = (4, 12, 8)          # iteration labels: not monotonic in row order
 TVALS = (0.5, 2.5, 1.5)
+TMIX = (2, 3.75, 2.5)     # hand-written time list mixing int and float
 VARS = ['gammadet', 'Ktrace', 'Hamiltonian', 'gdown4', '<custom>']
 ESTS = ['max', 'mean', 'median', 'minabs', 'x0y0z1', '<customest>']
 KW = {'Lambda': 0.3, 'clear_cache_every_nbr_calc': 3}
@@ -123,8 +124,9 @@ def build_table(seed, nsteps, perm, tkey):
         table['it'] = [ITS[s] for s in order]
         table['t'] = [0.25 * ITS[s] for s in order]
     else:
-        vals = ITS if tkey in ('it', 'iteration') else TVALS
-        table[tkey] = [vals[s] for s in order]
+        vals = ITS if tkey in ('it', 'iteration') else (
+            TMIX if tkey == 't-mixed' else TVALS)
+        table['t' if tkey == 't-mixed' else tkey] = [vals[s] for s in order]
     for k in steps[0]:
         table[k] = [steps[s][k].copy() for s in order]
     return table, param, order
@@ -133,7 +135,8 @@ def build_table(seed, nsteps, perm, tkey):
 def temporal_value(tkey, s, nsteps):
     if tkey == 'it+t':
         return 0.25 * ITS[s]
-    return (ITS if tkey in ('it', 'iteration') else TVALS)[s]
+    return (ITS if tkey in ('it', 'iteration') else (
+        TMIX if tkey == 't-mixed' else TVALS))[s]
 
 
 def run_case(task):
@@ -173,7 +176,7 @@ def _run_case(task):
     if snapshot(table) != before:
         bad.append(('caller-table-modified', ''))
     # (iii) rows sorted by the temporal key
-    sort_key = 't' if tkey == 'it+t' else tkey
+    sort_key = 't' if tkey in ('it+t', 't-mixed') else tkey
     tcol = [float(x) for x in data[sort_key]]
     want_rows = sorted(order, key=lambda s: temporal_value(tkey, s, nsteps))
     if tcol != [float(temporal_value(tkey, s, nsteps)) for s in want_rows]:
@@ -238,7 +241,7 @@ def main(tier):
     few = [parts[0], parts[5], parts[40], parts[-1]]
     for nsteps in (1, 2, 3):
         for perm in itertools.permutations(range(nsteps)):
-            for tkey in ('it', 'iteration', 't', 'time', 'it+t'):
+            for tkey in ('it', 'iteration', 't', 'time', 'it+t', 't-mixed'):
                 for part in few:
                     for extra in (None, 'estimates-only', 'repeat'):
                         tasks.append((seed, nsteps, perm, tkey, part, extra))
